@@ -44,6 +44,32 @@ def main():
             elif "listing" in st:
                 files = {k: v.hex() for k, v in dbu.fs.files.items() if k.startswith("dbfs:/s/data")}
                 out.append({"data_files": files})
+            elif "set_commit_type" in st:
+                # the same directories and file system, opened again with another commit type
+                dds.set_store("dbfs", internal_dir="dbfs:/s/internal", data_dir="dbfs:/s/data", dbutils=dbu, commit_type=st["set_commit_type"])
+                out.append("U:" + _api._store()._commit_type.name)
+            elif "hist" in st:
+                # store-level history: blobs written through store_blob, multi-path sync_paths calls; then the whole file system
+                from collections import OrderedDict
+                store = _api._store()
+                oks = []
+                for op in st["hist"]:
+                    try:
+                        if op[0] == "blob":
+                            store.store_blob(op[1], bytes.fromhex(op[2]).decode("utf-8"), None)
+                        else:
+                            store.sync_paths(OrderedDict((p_, k_) for p_, k_ in op[1]))
+                        oks.append("1")
+                    except BaseException as e:  # noqa
+                        oks.append("0")
+                fetched = {}
+                for p_ in st.get("fetch", []):
+                    try:
+                        fetched[p_] = str(store.fetch_paths([p_])[p_])
+                    except BaseException as e:  # noqa
+                        fetched[p_] = "!" + type(e).__name__
+                files = {k: v.hex() for k, v in dbu.fs.files.items() if not k.endswith(".meta") or "/blobs/" not in k}
+                out.append({"oks": "".join(oks), "files": files, "fetched": fetched})
             elif "legacy" in st:
                 # a blob written by an older version: content + metadata naming a legacy codec reference
                 key, ref, kind = st["legacy"]
